@@ -37,6 +37,8 @@ char_of = z3.Function("is_a_character_of", S, S, B)                  # (characte
 all_chars_ident = z3.Function("all_characters_are_identifier_characters", S, B)
 bad_char = z3.Function("non_identifier_character_witness", S, S)
 ascii_ok = z3.Function("encodes_as_ascii", S, B)
+assign_ok = z3.Function("is_assignment_statement", S, B)
+tail1 = z3.Function("text_without_first_character", S, S)
 cf_wit = z3.Function("casefold_witness", I, S, S)
 sub_wit = z3.Function("substring_witness", I, S, S)
 str_of = z3.Function("str_of_value", I, S)                            # str(value)
@@ -148,7 +150,7 @@ class EncTheory(LexTheory):
                 return ObjV("decoder", info={"owner": "self"})
             if attr == "width":
                 return Z("int", z3.Const("self_width", I))
-            if attr in ("symbol_single_quote",):
+            if attr in ("symbol_single_quote", "end_delimiter"):
                 return Z("bool", z3.Const("self_" + attr, B))
             if attr == "numeric_types":
                 return FuncV("self.numeric_types")
@@ -225,6 +227,19 @@ class EncTheory(LexTheory):
         if sval(v) is not None:
             return Conc("str" in names)
         return super().isinstance_(ex, v, names)
+
+    def getslice(self, ex, recv, lo, hi):
+        t = self.sv(recv)
+        if t is not None and isinstance(lo, Conc) and lo.v == 1 and hi is None:
+            return Z("str", tail1(t))
+        return super().getslice(ex, recv, lo, hi)
+
+    def getitem(self, ex, recv, idx):
+        if isinstance(recv, ObjV) and recv.role == "strset" and isinstance(idx, Conc) and isinstance(idx.v, int):
+            x = fresh("table_item", S)
+            ex.st.assume(set_has(recv.info["id"], x))
+            return Z("str", x)
+        return super().getitem(ex, recv, idx)
 
     def b_isinstance(self, ex, args, kwargs):
         v, t = args
